@@ -44,7 +44,8 @@ def program(r, non_ascii=False, max_records=5, names_non_ascii=False):
     def val():
         k = r.choice(["str", "int", "bool", "dt", "uri", "qn", "lang"])
         if k == "str":
-            return {"k": "str", "v": r.choice(STRINGS + (["Đông ü", "日本", "sep\u2028arator", "para\u2029graph", "nel\x85x"] if non_ascii else []))}
+            return {"k": "str", "v": r.choice(STRINGS + (["Đông ü", "日本", "sep\u2028arator", "para\u2029graph", "nel\x85x", "e\u0301 \u212b", "mid\ufeffdle", "\ufeffstart"]
+                                               + (["日本語" * 9000] if r.random() < 0.02 else []) if non_ascii else []))}
         if k == "int":
             return {"k": "int", "v": r.choice([0, 1, -5, 2 ** 40, 42, 2 ** 63, -2 ** 63 - 1, 10 ** 30, 2 ** 31])}
         if k == "bool":
